@@ -18,6 +18,7 @@ func Gen(run *vlib.Run, seed uint64, tier string) {
 	genSubtables(run, r.Fork("subtables"), tier)
 	genInfos(run, r.Fork("info"), tier)
 	genGdefs(run, r.Fork("gdef"), tier)
+	genGpos4(run, r.Fork("gpos4"), tier)
 	genFeatureLists(run, r.Fork("featurelist"), tier)
 	genScriptLists(run, r.Fork("scriptlist"), tier)
 }
@@ -189,6 +190,10 @@ func RunCase(line string) (impl, fail, sig string, err error) {
 		if err != nil {
 			xd, err2 := xDescOf(items[1])
 			if err2 != nil {
+				if g4, err3 := g4DescOf(items[1]); err3 == nil {
+					impl, fail = g4Case(g4)
+					return impl, fail, "c08-subtable-gpos41", nil
+				}
 				return "", "", "", err
 			}
 			impl, fail, _ = subEncX2(xd)
